@@ -15,7 +15,15 @@ def get_bcasted_dims(*shapes):
     Return the broadcasted shape of the given shapes.
     """
     shapes = normalize_bcast_dims(*shapes)
-    return [max(*a) for a in zip(*shapes)]
+    res = []
+    for sizes in zip(*shapes):
+        # a dimension of size 1 stretches to the other size (which may be 0);
+        # two different sizes other than 1 cannot be broadcast
+        others = set(s for s in sizes if s != 1)
+        if len(others) > 1:
+            raise RuntimeError("The shapes %s cannot be broadcast" % (", ".join(str(tuple(s)) for s in shapes)))
+        res.append(others.pop() if others else 1)
+    return res
 
 def match_dim(*xs: torch.Tensor, contiguous: bool = False) -> Tuple[torch.Tensor, ...]:
     # match the N-1 dimensions of x and xq for searchsorted and gather with dim=-1
